@@ -31,7 +31,9 @@ PolyVariants == UNION { { Rot(Polys[n], k) : k \in 0..(Len(Polys[n]) - 1) } \cup
 RectVariants == { << <<0,0>>, <<4,2>> >>, << <<4,2>>, <<0,0>> >>, << <<0,2>>, <<4,0>> >>, << <<4,0>>, <<0,2>> >>,
                   << <<0,0>>, <<2,5>> >>, << <<-3,-7>>, <<3,7>> >>, << <<1,1>>, <<2,2>> >>, << <<0,0>>, <<1,8>> >> }
 PathVariants == { << <<0,0>>, <<6,0>> >>, << <<6,0>>, <<0,0>> >>, << <<0,0>>, <<0,7>> >>, << <<0,0>>, <<5,0>>, <<5,4>> >>,
-                  << <<0,0>>, <<5,0>>, <<5,4>>, <<9,4>> >>, << <<2,2>>, <<2,9>>, <<-4,9>> >> }
+                  << <<0,0>>, <<5,0>>, <<5,4>>, <<9,4>> >>, << <<2,2>>, <<2,9>>, <<-4,9>> >>,
+                  \* a ring drawn as one path: it ends where it starts, and the last point is content
+                  << <<0,0>>, <<9,0>>, <<9,9>>, <<0,9>>, <<0,0>> >>, << <<6,6>>, <<6,0>>, <<0,0>>, <<0,6>>, <<6,6>> >> }
 Nets == << "", "a", "VDD", "MiXed" >>
 E(l, p, k, pts, w, net) == [layer |-> l, purpose |-> p, k |-> k, pts |-> pts, width |-> w, net |-> net]
 Cell(n, insts, elems) == [name |-> n, insts |-> insts, elems |-> elems]
